@@ -48,6 +48,12 @@ func VerifAttachNeedsAuthorization() {
 		paths: map[string]*path{}, externalCmdPool: &externalcmd.Pool{}}
 
 	name := []string{"cam", "live/a", "nowhere"}[vnd.Choose("name", 3)]
+	// the path may be live already (created by an earlier request)
+	var existing *path
+	if name != "nowhere" && vnd.Bool("pathIsLive") {
+		existing = &path{name: name}
+		pm.paths[name] = existing
+	}
 	publish := vnd.Bool("publish")
 	skip := vnd.Bool("skipAuth")
 	creds := &auth.Credentials{User: vnd.String("user", vnd.Choose("userLen", 2)), Pass: vnd.String("pass", vnd.Choose("passLen", 2))}
@@ -126,12 +132,12 @@ func VerifAttachNeedsAuthorization() {
 		}
 	} else {
 		vnd.Assert(gotErr != nil, "a request that is not served gets an error")
-		_, created := pm.paths[name]
-		vnd.Assert(!created, "a refused request creates no path")
+		p, created := pm.paths[name]
+		vnd.Assert(!created || p == existing, "a refused request creates no path")
 	}
 	if handedOut {
 		p, ok := pm.paths[name]
-		vnd.Assert(ok && defs.Path(p) == gotPath, "the path handed out is the one registered under the requested name")
+		vnd.Assert(ok && defs.Path(p) == gotPath && (existing == nil || p == existing), "the path handed out is the one registered under the requested name")
 	}
 	vnd.Cover(handedOut && entry == 3, "publisher attached")
 	vnd.Cover(!handedOut && am.refuse && !skip && name != "nowhere", "refused by the authentication manager")
